@@ -11,223 +11,7 @@ verus! {
 //@include inc_shiftable.rs
 //@include inc_reference.rs
 
-// ---------- the meaning of the tree (ast.rs: "every node range is relative to the nearest enclosing Reference"):
-// the errors in a node's own info, followed by those of its children in source order; a child reached through a
-// Reference is displaced by that reference's offset, a child reached through a plain Box is not.
-pub open spec fn opt_id(o: Option<Identifier>) -> Seq<SplError> {
-    match o { Some(n) => n.info.errors@, None => Seq::empty() }
-}
-pub open spec fn se_var(v: Variable) -> Seq<SplError>
-    decreases v
-{
-    match v {
-        Variable::NamedVariable(n) => n.info.errors@,
-        Variable::ArrayAccess(a) => a.info.errors@ + se_var(*a.array) + (match a.index {
-            Some(ix) => errs_plus(se_expr(ix.reference), ix.offset as int),
-            None => Seq::empty(),
-        }),
-    }
-}
-pub open spec fn se_expr(e: Expression) -> Seq<SplError>
-    decreases e
-{
-    match e {
-        Expression::Binary(b) => b.info.errors@ + se_expr(*b.lhs) + se_expr(*b.rhs),
-        Expression::Bracketed(b) => b.info.errors@ + se_expr(*b.expr),
-        Expression::IntLiteral(i) => i.info.errors@,
-        Expression::Unary(u) => u.info.errors@ + se_expr(*u.expr),
-        Expression::Variable(v) => se_var(v),
-        Expression::Error(i) => i.errors@,
-    }
-}
-pub open spec fn se_texpr(t: TypeExpression) -> Seq<SplError>
-    decreases t
-{
-    match t {
-        TypeExpression::NamedType(n) => n.info.errors@,
-        TypeExpression::ArrayType { size, base_type, info } => info.errors@
-            + (match size { Some(l) => l.info.errors@, None => Seq::empty() })
-            + (match base_type { Some(bt) => errs_plus(se_texpr(bt.reference), bt.offset as int), None => Seq::empty() }),
-    }
-}
-pub open spec fn opt_texpr(o: Option<Reference<TypeExpression>>) -> Seq<SplError> {
-    match o { Some(t) => errs_plus(se_texpr(t.reference), t.offset as int), None => Seq::empty() }
-}
-pub open spec fn se_tdec(t: TypeDeclaration) -> Seq<SplError> {
-    t.info.errors@ + opt_id(t.name) + opt_texpr(t.type_expr)
-}
-pub open spec fn se_vdec(v: VariableDeclaration) -> Seq<SplError> {
-    match v {
-        VariableDeclaration::Error(i) => i.errors@,
-        VariableDeclaration::Valid { doc, name, type_expr, info } => info.errors@ + opt_id(name) + opt_texpr(type_expr),
-    }
-}
-pub open spec fn se_pdec(p: ParameterDeclaration) -> Seq<SplError> {
-    match p {
-        ParameterDeclaration::Error(i) => i.errors@,
-        ParameterDeclaration::Valid { doc, is_ref, name, type_expr, info } => info.errors@ + opt_id(name) + opt_texpr(type_expr),
-    }
-}
-pub open spec fn opt_expr(o: Option<Reference<Expression>>) -> Seq<SplError> {
-    match o { Some(e) => errs_plus(se_expr(e.reference), e.offset as int), None => Seq::empty() }
-}
-pub open spec fn se_args(v: Vec<Reference<Expression>>, n: nat) -> Seq<SplError>
-    decreases n
-{
-    if n == 0 || n > v@.len() { Seq::empty() } else { se_args(v, (n - 1) as nat) + errs_plus(se_expr(v@[n - 1].reference), v@[n - 1].offset as int) }
-}
-pub open spec fn se_call(c: CallStatement) -> Seq<SplError> {
-    c.info.errors@ + c.name.info.errors@ + se_args(c.arguments, c.arguments@.len())
-}
-pub open spec fn se_asg(a: Assignment) -> Seq<SplError> {
-    a.info.errors@ + se_var(a.variable) + opt_expr(a.expr)
-}
-pub open spec fn se_stmt(s: Statement) -> Seq<SplError>
-    decreases s, 0nat
-{
-    match s {
-        Statement::Empty(i) => i.errors@,
-        Statement::Error(i) => i.errors@,
-        Statement::Assignment(a) => se_asg(a),
-        Statement::Call(c) => se_call(c),
-        Statement::If(i) => i.info.errors@ + opt_expr(i.condition)
-            + (match i.if_branch { Some(b) => errs_plus(se_stmt(b.reference), b.offset as int), None => Seq::empty() })
-            + (match i.else_branch { Some(b) => errs_plus(se_stmt(b.reference), b.offset as int), None => Seq::empty() }),
-        Statement::While(w) => w.info.errors@ + opt_expr(w.condition)
-            + (match w.statement { Some(b) => errs_plus(se_stmt(b.reference), b.offset as int), None => Seq::empty() }),
-        Statement::Block(b) => b.info.errors@ + se_stmts(b.statements, b.statements@.len()),
-    }
-}
-pub open spec fn se_stmts(v: Vec<Reference<Statement>>, n: nat) -> Seq<SplError>
-    decreases v, n
-{
-    if n == 0 || n > v@.len() { Seq::empty() } else { se_stmts(v, (n - 1) as nat) + errs_plus(se_stmt(v@[n - 1].reference), v@[n - 1].offset as int) }
-}
-pub open spec fn se_pdecs(v: Vec<Reference<ParameterDeclaration>>, n: nat) -> Seq<SplError>
-    decreases n
-{
-    if n == 0 || n > v@.len() { Seq::empty() } else { se_pdecs(v, (n - 1) as nat) + errs_plus(se_pdec(v@[n - 1].reference), v@[n - 1].offset as int) }
-}
-pub open spec fn se_vdecs(v: Vec<Reference<VariableDeclaration>>, n: nat) -> Seq<SplError>
-    decreases n
-{
-    if n == 0 || n > v@.len() { Seq::empty() } else { se_vdecs(v, (n - 1) as nat) + errs_plus(se_vdec(v@[n - 1].reference), v@[n - 1].offset as int) }
-}
-pub open spec fn se_proc(p: ProcedureDeclaration) -> Seq<SplError> {
-    p.info.errors@ + opt_id(p.name) + se_pdecs(p.parameters, p.parameters@.len())
-        + se_vdecs(p.variable_declarations, p.variable_declarations@.len()) + se_stmts(p.statements, p.statements@.len())
-}
-pub open spec fn se_gdec(g: GlobalDeclaration) -> Seq<SplError> {
-    match g {
-        GlobalDeclaration::Type(t) => se_tdec(t),
-        GlobalDeclaration::Procedure(p) => se_proc(p),
-        GlobalDeclaration::Error(i) => i.errors@,
-    }
-}
-pub open spec fn se_gdecs(v: Vec<Reference<GlobalDeclaration>>, n: nat) -> Seq<SplError>
-    decreases n
-{
-    if n == 0 || n > v@.len() { Seq::empty() } else { se_gdecs(v, (n - 1) as nat) + errs_plus(se_gdec(v@[n - 1].reference), v@[n - 1].offset as int) }
-}
-pub open spec fn se_prog(p: Program) -> Seq<SplError> {
-    p.info.errors@ + se_gdecs(p.global_declarations, p.global_declarations@.len())
-}
-
-// ---------- data invariant needed for panic-freedom: every displacement is representable (positions are token indices)
-// and the size literal of an array type carries no error of its own (IntLiteral::parse contains no `expect`).
-pub open spec fn ok_var(v: Variable) -> bool
-    decreases v
-{
-    match v {
-        Variable::NamedVariable(n) => true,
-        Variable::ArrayAccess(a) => ok_var(*a.array) && (match a.index {
-            Some(ix) => ok_expr(ix.reference) && errs_fit(se_expr(ix.reference), ix.offset as int),
-            None => true,
-        }),
-    }
-}
-pub open spec fn ok_expr(e: Expression) -> bool
-    decreases e
-{
-    match e {
-        Expression::Binary(b) => ok_expr(*b.lhs) && ok_expr(*b.rhs),
-        Expression::Bracketed(b) => ok_expr(*b.expr),
-        Expression::IntLiteral(i) => true,
-        Expression::Unary(u) => ok_expr(*u.expr),
-        Expression::Variable(v) => ok_var(v),
-        Expression::Error(i) => true,
-    }
-}
-pub open spec fn ok_texpr(t: TypeExpression) -> bool
-    decreases t
-{
-    match t {
-        TypeExpression::NamedType(n) => true,
-        TypeExpression::ArrayType { size, base_type, info } =>
-            (match size { Some(l) => l.info.errors@.len() == 0, None => true })
-            && (match base_type { Some(bt) => ok_texpr(bt.reference) && errs_fit(se_texpr(bt.reference), bt.offset as int), None => true }),
-    }
-}
-pub open spec fn ok_opt_texpr(o: Option<Reference<TypeExpression>>) -> bool {
-    match o { Some(t) => ok_texpr(t.reference) && errs_fit(se_texpr(t.reference), t.offset as int), None => true }
-}
-pub open spec fn ok_opt_expr(o: Option<Reference<Expression>>) -> bool {
-    match o { Some(e) => ok_expr(e.reference) && errs_fit(se_expr(e.reference), e.offset as int), None => true }
-}
-pub open spec fn ok_vdec(v: VariableDeclaration) -> bool {
-    match v {
-        VariableDeclaration::Error(i) => true,
-        VariableDeclaration::Valid { doc, name, type_expr, info } => ok_opt_texpr(type_expr),
-    }
-}
-pub open spec fn ok_pdec(p: ParameterDeclaration) -> bool {
-    match p {
-        ParameterDeclaration::Error(i) => true,
-        ParameterDeclaration::Valid { doc, is_ref, name, type_expr, info } => ok_opt_texpr(type_expr),
-    }
-}
-pub open spec fn ok_call(c: CallStatement) -> bool {
-    forall|i: int| 0 <= i < c.arguments@.len() ==> ok_expr((#[trigger] c.arguments@[i]).reference) && errs_fit(se_expr(c.arguments@[i].reference), c.arguments@[i].offset as int)
-}
-pub open spec fn ok_asg(a: Assignment) -> bool {
-    ok_var(a.variable) && ok_opt_expr(a.expr)
-}
-pub open spec fn ok_stmt(s: Statement) -> bool
-    decreases s, 0nat
-{
-    match s {
-        Statement::Empty(i) => true,
-        Statement::Error(i) => true,
-        Statement::Assignment(a) => ok_asg(a),
-        Statement::Call(c) => ok_call(c),
-        Statement::If(i) => ok_opt_expr(i.condition)
-            && (match i.if_branch { Some(b) => ok_stmt(b.reference) && errs_fit(se_stmt(b.reference), b.offset as int), None => true })
-            && (match i.else_branch { Some(b) => ok_stmt(b.reference) && errs_fit(se_stmt(b.reference), b.offset as int), None => true }),
-        Statement::While(w) => ok_opt_expr(w.condition)
-            && (match w.statement { Some(b) => ok_stmt(b.reference) && errs_fit(se_stmt(b.reference), b.offset as int), None => true }),
-        Statement::Block(b) => ok_stmts(b.statements, b.statements@.len()),
-    }
-}
-pub open spec fn ok_stmts(v: Vec<Reference<Statement>>, n: nat) -> bool
-    decreases v, n
-{
-    if n == 0 || n > v@.len() { true } else { ok_stmts(v, (n - 1) as nat) && ok_stmt(v@[n - 1].reference) && errs_fit(se_stmt(v@[n - 1].reference), v@[n - 1].offset as int) }
-}
-pub open spec fn ok_proc(p: ProcedureDeclaration) -> bool {
-    (forall|i: int| 0 <= i < p.parameters@.len() ==> ok_pdec((#[trigger] p.parameters@[i]).reference) && errs_fit(se_pdec(p.parameters@[i].reference), p.parameters@[i].offset as int))
-    && (forall|i: int| 0 <= i < p.variable_declarations@.len() ==> ok_vdec((#[trigger] p.variable_declarations@[i]).reference) && errs_fit(se_vdec(p.variable_declarations@[i].reference), p.variable_declarations@[i].offset as int))
-    && ok_stmts(p.statements, p.statements@.len())
-}
-pub open spec fn ok_gdec(g: GlobalDeclaration) -> bool {
-    match g {
-        GlobalDeclaration::Type(t) => ok_opt_texpr(t.type_expr),
-        GlobalDeclaration::Procedure(p) => ok_proc(p),
-        GlobalDeclaration::Error(i) => true,
-    }
-}
-pub open spec fn ok_prog(p: Program) -> bool {
-    forall|i: int| 0 <= i < p.global_declarations@.len() ==> ok_gdec((#[trigger] p.global_declarations@[i]).reference) && errs_fit(se_gdec(p.global_declarations@[i].reference), p.global_declarations@[i].offset as int)
-}
+//@include inc_errors_spec.rs
 
 // ---------- std behaviour assumed
 //~assume derived Clone for SplError is structural (R1: derives are dropped; `clone` returns an equal value)
@@ -257,19 +41,6 @@ pub fn extend_flat_map<T, F: Fn(&T) -> Vec<SplError>>(errors: &mut Vec<SplError>
         forall|i: int| 0 <= i < items@.len() ==> call_ensures(f, (&items@[i],), #[trigger] rs@[i]),
         final(errors)@ == old(errors)@ + flat(rs@, rs@.len()),
 { errors.extend(items.iter().flat_map(f)); Ghost::assume_new() }
-
-// ---------- the trait with its contract
-//@extract spl_frontend/src/lib.rs :: trait ErrorContainer
-//@ open
-    /// data invariant under which errors() cannot overflow
-    spec fn errors_ok(&self) -> bool;
-    /// the meaning of the tree
-    spec fn spec_errors(&self) -> Seq<SplError>;
-//@ ret r fn errors
-//@ sig fn errors
-        requires self.errors_ok(),
-        ensures r@ == self.spec_errors(), //# ErrorContainer::errors::exactly_the_stored_errors
-//@end
 
 // ---------- lemmas connecting flat() with the recursive meaning
 pub proof fn lemma_flat_args(v: Vec<Reference<Expression>>, rs: Seq<Vec<SplError>>, n: nat)
